@@ -4,6 +4,7 @@ import (
 	"bytes"
 	"fmt"
 	"math/big"
+	"net/url"
 	"reflect"
 	"sort"
 	"strings"
@@ -85,7 +86,7 @@ func goType(k int, null bool) reflect.Type {
 type Val struct {
 	K     int    `json:"k"`
 	Null  bool   `json:"nullable,omitempty"`
-	Nil   bool   `json:"nil,omitempty"`   // nil pointer (nullable kinds only)
+	Nil   bool   `json:"nil,omitempty"`         // nil pointer (nullable kinds only)
 	UNil  bool   `json:"untyped_nil,omitempty"` // pass an untyped nil to Set
 	S     string `json:"s,omitempty"`
 	I     string `json:"i,omitempty"` // integer, decimal
@@ -352,12 +353,12 @@ type RelSpec struct {
 }
 
 type TypeSpec struct {
-	Name    string     `json:"name"`
-	Wrapped bool       `json:"wrapped,omitempty"` // struct-backed (reflect.StructOf + BuildType)
-	NilMaps bool       `json:"nil_maps,omitempty"` // soft type declared with nil maps when it has no field
-	NoFromType bool    `json:"no_from_type,omitempty"` // soft type whose relationships are declared without FromType
-	Attrs   []AttrSpec `json:"attrs,omitempty"`
-	Rels    []RelSpec  `json:"rels,omitempty"`
+	Name       string     `json:"name"`
+	Wrapped    bool       `json:"wrapped,omitempty"`      // struct-backed (reflect.StructOf + BuildType)
+	NilMaps    bool       `json:"nil_maps,omitempty"`     // soft type declared with nil maps when it has no field
+	NoFromType bool       `json:"no_from_type,omitempty"` // soft type whose relationships are declared without FromType
+	Attrs      []AttrSpec `json:"attrs,omitempty"`
+	Rels       []RelSpec  `json:"rels,omitempty"`
 }
 
 func (t *TypeSpec) Attr(name string) *AttrSpec {
@@ -502,7 +503,56 @@ func buildType(t *TypeSpec) jsonapi.Type {
 // with a decoy type that is looked up and removed again before the last type is added (the type count is
 // then the same before and after), or with the first type removed and added again after lookups. The
 // resulting schema always holds exactly the spec's types.
+// buildSchemaPlain adds the types in order and does nothing else: the schema has never been looked at when it is
+// returned (used by C12's cold-start phase, where the first use has to be the concurrent one).
+func buildSchemaPlain(s *SchemaSpec) *jsonapi.Schema {
+	sc := &jsonapi.Schema{}
+	for i := range s.Types {
+		if err := sc.AddType(buildType(&s.Types[i])); err != nil {
+			panic("harness: AddType: " + err.Error())
+		}
+	}
+	return sc
+}
+
+// useWithDecoyField temporarily adds a field "zz-decoy-attr" to every type that has attribute storage, parses URLs
+// against the schema while it is there (collection URLs with the default sorting, with a sort, field selection and
+// include), and removes it again. The schema ends up as the spec describes it; anything the library remembered from
+// the intermediate state (memoised default sorting rules, field lists, per-schema caches) is stale afterwards.
+func useWithDecoyField(s *SchemaSpec, sc *jsonapi.Schema) {
+	var used []string
+	for i := range s.Types {
+		t := &s.Types[i]
+		if t.NilMaps || (len(t.Attrs) == 0 && !t.Wrapped) {
+			continue
+		}
+		if err := sc.AddAttr(t.Name, jsonapi.Attr{Name: "zz-decoy-attr", Type: jsonapi.AttrTypeString}); err == nil {
+			used = append(used, t.Name)
+		}
+	}
+	func() {
+		defer func() { _ = recover() }()
+		for i := range s.Types {
+			n := url.PathEscape(s.Types[i].Name)
+			_, _ = jsonapi.NewURLFromRaw(sc, "/"+n)
+			_, _ = jsonapi.NewURLFromRaw(sc, "/"+n+"?sort=zz-decoy-attr&fields%5B"+url.QueryEscape(s.Types[i].Name)+"%5D=zz-decoy-attr")
+			_, _ = jsonapi.NewURLFromRaw(sc, "/"+n+"/x")
+		}
+	}()
+	for _, n := range used {
+		sc.RemoveAttr(n, "zz-decoy-attr")
+	}
+}
+
 func buildSchema(s *SchemaSpec) *jsonapi.Schema {
+	sc := buildSchemaHistory(s)
+	if n := len(s.Types); n > 0 && strSeed(s.Types[n-1].Name+fmt.Sprint(len(s.Types[0].Rels), n))%3 == 0 {
+		useWithDecoyField(s, sc)
+	}
+	return sc
+}
+
+func buildSchemaHistory(s *SchemaSpec) *jsonapi.Schema {
 	sc := &jsonapi.Schema{}
 	add := func(t *TypeSpec) {
 		if err := sc.AddType(buildType(t)); err != nil {
